@@ -12,6 +12,11 @@ CLAIMS = {
         "Decides structural necessary conditions only: each GlobalAlloc method forwards exactly once with unchanged arguments and returns the inner result; (size,1) is recorded exactly once for alloc/alloc_zeroed/realloc and never for dealloc; counters are thread-local and registered before publication; spans subtract their start snapshot. It does not decide exactness over all allocation histories/interleavings.",
         "Trusted: rustc nightly MIR construction and callee resolution, factgen extraction, the rule table in vf/props/c18.py. Analyses lib target, default features, dev profile.",
         "DESIGN.md section 3, C18"),
+    "C19": (
+        "MIR rules over the async bodies (analysis MIR of coroutines): dominance order create->write->flush->close->rename, who-may-call on file-writing primitives, dominating-switch guards (Ok(false) arm), backward slices for path provenance, writer/lister constant agreement",
+        "Decides structural necessary conditions only: write order and rename-last in write_atomic, single writer function, temp file beside the target with the reserved prefix shared by writer and lister, existence check guarding write-once put, key validation dominating every filesystem call, compress/decompress pairing. Crash atomicity itself rests on rename(2) and is not decided; nor are byte-identical round trips or reader/writer interleavings.",
+        "Trusted: rustc nightly MIR construction (mir_promoted of coroutine bodies captured through a query-provider override), factgen extraction, rule table in vf/props/c19.py; rename(2) atomicity.",
+        "DESIGN.md section 3, C19"),
 }
 
 NOT_APPLICABLE = {
